@@ -141,6 +141,100 @@ def run_tlc(module, cfg, out, workers=8, env=None, timeout=1800, deque=False, ex
     return st
 
 
+def run_harness(cmds, cases, trace, chunk=4000, par=4, case_timeout=60, chunk_timeout=3000):
+    """Supervised execution of the Rust harness.  `cmds(cases_path, trace_path, tag)` returns the list of argv lists to
+    run (in order) for one slice of the cases; the last command's last stdout line is a JSON statistics object.
+    The cases file is processed in slices of `chunk` lines, `par` at a time.  A slice whose process dies (abort:
+    allocation failure, stack overflow, signal) or exceeds its timeout is re-run case by case; a case whose own
+    process dies or hangs becomes an ABORT RECORD {c: process_abort|process_hang, tr: id, msg} instead of trace
+    events.  A panic is caught inside the harness (catch_unwind) and never gets here; what gets here would take the
+    user's process down too.  Returns (merged statistics, abort records)."""
+    import concurrent.futures
+    base = trace + ".slices"
+    subprocess.run(["rm", "-rf", base])
+    os.makedirs(base)
+    lines = open(cases).read().splitlines()
+    slices = []
+    for i in range(0, len(lines), chunk):
+        pth = os.path.join(base, "c%05d.ndjson" % len(slices))
+        open(pth, "w").write("\n".join(lines[i:i + chunk]) + "\n")
+        slices.append(pth)
+
+    def run_slice(cpath, timeout):
+        """-> (ok, stat or None, message)"""
+        tpath = cpath + ".trace"
+        stat = None
+        for argv in cmds(cpath, tpath, os.path.basename(cpath)):
+            try:
+                p = subprocess.run(argv, stdout=subprocess.PIPE, stderr=subprocess.STDOUT, text=True, timeout=timeout)
+            except subprocess.TimeoutExpired:
+                return False, None, "hang: no result after %ss" % timeout
+            if p.returncode != 0:
+                return False, None, "exit %s: %s" % (p.returncode, (p.stdout or "")[-600:].replace("\n", " | "))
+            try:
+                stat = json.loads(p.stdout.strip().splitlines()[-1])
+            except Exception:
+                stat = {}
+        return True, stat, ""
+
+    n_aborts = [0]
+
+    def first_id(cpath):
+        try:
+            return json.loads(open(cpath).readline()).get("id")
+        except Exception:
+            return None
+
+    def do(cpath):
+        ok, stat, msg = run_slice(cpath, chunk_timeout)
+        if ok:
+            return [(cpath + ".trace", stat)], []
+        if n_aborts[0] >= 12:
+            # enough isolated witnesses: the rest of the failing slices are reported as a whole
+            return [], [{"c": "process_hang" if msg.startswith("hang") else "process_abort", "tr": first_id(cpath),
+                         "msg": "(slice not isolated) " + msg[:300]}]
+        # isolate: one process per case
+        outs, aborts = [], []
+        for k, line in enumerate(open(cpath).read().splitlines()):
+            if n_aborts[0] >= 12:
+                break
+            one = "%s.%d" % (cpath, k)
+            open(one, "w").write(line + "\n")
+            ok1, st1, msg1 = run_slice(one, case_timeout)
+            if ok1:
+                outs.append((one + ".trace", st1))
+            else:
+                try:
+                    cid = json.loads(line).get("id")
+                except Exception:
+                    cid = None
+                aborts.append({"c": "process_hang" if msg1.startswith("hang") else "process_abort", "tr": cid, "msg": msg1[:400]})
+                n_aborts[0] += 1
+        return outs, aborts
+
+    with concurrent.futures.ThreadPoolExecutor(max_workers=par) as ex:
+        results = list(ex.map(do, slices))
+    merged, aborts = {}, []
+    with open(trace, "w") as o:
+        for outs, ab in results:
+            aborts += ab
+            for tpath, stat in outs:
+                if os.path.exists(tpath):
+                    with open(tpath) as f:
+                        for line in f:
+                            o.write(line)
+                for k, v in (stat or {}).items():
+                    if isinstance(v, (int, float)) and not isinstance(v, bool):
+                        merged[k] = merged.get(k, 0) + v
+                    else:
+                        merged.setdefault(k, v)
+    subprocess.run(["rm", "-rf", base])
+    return merged, aborts
+
+
+ABORT_CLASSES = ("process_abort", "process_hang")
+
+
 def run_tlc_trace(module, cfg, trace, out, workers=2, chunk=20000, par=6, boundary=None, env=None, timeout=6000, deque=False):
     """Trace validation of a (possibly large) ndjson trace: the trace is cut into chunks of about `chunk` lines
     (only at lines for which boundary(line) holds, when given: e.g. the first event of a history), one TLC run per
@@ -333,7 +427,9 @@ def run_check(prop, tier, seed, fams, technique_note=""):
            "families": {}}
     for fam in fams:
         res = fam.campaign(tier, seed)
-        mine = [dict(r, fam=fam.NAME) for r in res["records"] if prop in fam.props_of(r)]
+        mine = [dict(r, fam=fam.NAME) for r in res["records"]
+                if (r.get("c") in ABORT_CLASSES and prop in getattr(fam, "SERVES", fam.PROPS)) or
+                   (r.get("c") not in ABORT_CLASSES and prop in fam.props_of(r))]
         recs += mine
         cov["states"] += res["states"]
         cov["transitions"] += res["transitions"]
@@ -394,12 +490,9 @@ def simple_campaign(name, tier, seed, mc_module, mc_cfg_text, harness_args, trac
                     c = dict(c, id=n + 1 + i)
                     f.write(json.dumps(c) + "\n")
         trace = st.path("trace.ndjson")
-        args = [BIN] + [cases if a == "CASES" else trace if a == "TRACE" else str(seed) if a == "SEED" else a
-                        for a in harness_args]
-        rc, out, _ = sh(args, timeout=6000)
-        if rc != 0:
-            raise ToolError("harness failed: " + out[-2000:])
-        hstat = json.loads(out.strip().splitlines()[-1])
+        hstat, aborts = run_harness(
+            lambda c, t, tag: [[BIN] + [c if a == "CASES" else t if a == "TRACE" else str(seed) if a == "SEED" else a
+                                        for a in harness_args]], cases, trace)
         tv_out = st.path("tv.out")
         tv = run_tlc_trace(trace_module, os.path.join(SPEC, trace_module + ".cfg"), trace, tv_out,
                            workers=max(1, tv_workers // 2), chunk=40000, par=4, timeout=6000)
@@ -412,6 +505,7 @@ def simple_campaign(name, tier, seed, mc_module, mc_cfg_text, harness_args, trac
             if k not in seen:
                 seen.add(k)
                 recs.append(r)
+        recs += aborts
         drift = sum(1 for _ in tagged(tv_out, "SPEC-DRIFT"))
         os.remove(tv_out)
         samples = []
@@ -437,7 +531,8 @@ def simple_replay(name, prop, path, harness_args, trace_module, flatten, props_o
     open(cases, "w").write(json.dumps(c) + "\n")
     trace = os.path.join(d, name + "-trace.ndjson")
     args = [BIN] + [cases if a == "CASES" else trace if a == "TRACE" else "1" if a == "SEED" else a for a in harness_args]
-    sh(args, timeout=600)
+    if replay_abort(prop, path, [args]):
+        return 1
     tv_out = os.path.join(d, name + "-tv.out")
     tv = run_tlc(trace_module, os.path.join(SPEC, trace_module + ".cfg"), tv_out, workers=1, env={"TRACE": trace}, timeout=600)
     print("CASE", open(trace).read()[:3000])
@@ -445,6 +540,20 @@ def simple_replay(name, prop, path, harness_args, trace_module, flatten, props_o
     recs = [r for r in recs if prop in props_of(r)]
     rc, n, known = finish(prop, recs, load_findings(), lambda r: path)
     return rc
+
+
+def replay_abort(prop, path, argvs, timeout=120):
+    """run the harness command(s) of a replay; if the process dies or hangs, that is the violation being replayed"""
+    for argv in argvs:
+        try:
+            p = subprocess.run(argv, stdout=subprocess.PIPE, stderr=subprocess.STDOUT, text=True, timeout=timeout)
+        except subprocess.TimeoutExpired:
+            print("VIOLATION property=%s replay=%s  (process_hang: no result after %ss)" % (prop, path, timeout))
+            return True
+        if p.returncode != 0:
+            print("VIOLATION property=%s replay=%s  (process_abort: exit %s: %s)" % (prop, path, p.returncode, (p.stdout or "")[-300:].replace("\n", " | ")))
+            return True
+    return False
 
 
 def stage_case(name, tier, tr):
